@@ -18,22 +18,25 @@ type tb struct {
 
 type failNow struct{ msg string }
 
-func (t *tb) Helper()                           {}
-func (t *tb) Name() string                      { return "verif" }
-func (t *tb) Log(a ...any)                      {}
-func (t *tb) Logf(f string, a ...any)           {}
-func (t *tb) Cleanup(f func())                  { t.cleanups = append(t.cleanups, f) }
-func (t *tb) Failed() bool                      { return t.failed }
-func (t *tb) Fail()                             { t.failed = true }
-func (t *tb) Error(a ...any)                    { t.failed = true; t.msgs = append(t.msgs, fmt.Sprint(a...)) }
-func (t *tb) Errorf(f string, a ...any)         { t.failed = true; t.msgs = append(t.msgs, fmt.Sprintf(f, a...)) }
-func (t *tb) Fatal(a ...any)                    { t.Error(a...); t.FailNow() }
-func (t *tb) Fatalf(f string, a ...any)         { t.Errorf(f, a...); t.FailNow() }
-func (t *tb) Skip(a ...any)                     {}
-func (t *tb) Skipf(f string, a ...any)          {}
-func (t *tb) SkipNow()                          {}
-func (t *tb) Skipped() bool                     { return false }
-func (t *tb) Setenv(k, v string)                { os.Setenv(k, v) }
+func (t *tb) Helper()                 {}
+func (t *tb) Name() string            { return "verif" }
+func (t *tb) Log(a ...any)            {}
+func (t *tb) Logf(f string, a ...any) {}
+func (t *tb) Cleanup(f func())        { t.cleanups = append(t.cleanups, f) }
+func (t *tb) Failed() bool            { return t.failed }
+func (t *tb) Fail()                   { t.failed = true }
+func (t *tb) Error(a ...any)          { t.failed = true; t.msgs = append(t.msgs, fmt.Sprint(a...)) }
+func (t *tb) Errorf(f string, a ...any) {
+	t.failed = true
+	t.msgs = append(t.msgs, fmt.Sprintf(f, a...))
+}
+func (t *tb) Fatal(a ...any)            { t.Error(a...); t.FailNow() }
+func (t *tb) Fatalf(f string, a ...any) { t.Errorf(f, a...); t.FailNow() }
+func (t *tb) Skip(a ...any)             {}
+func (t *tb) Skipf(f string, a ...any)  {}
+func (t *tb) SkipNow()                  {}
+func (t *tb) Skipped() bool             { return false }
+func (t *tb) Setenv(k, v string)        { os.Setenv(k, v) }
 func (t *tb) FailNow() {
 	t.failed = true
 	m := ""
